@@ -46,6 +46,11 @@ pub fn build_pssm<A: Abc>(cells: &[Vec<i64>]) -> ScoringMatrix<A> {
 pub fn build_seq<A: Abc, C: PositiveLength>(ranks: &[usize], wrap: usize) -> StripedSequence<A, C> {
     let pli = Pipeline::<A, _>::generic();
     let mut s: StripedSequence<A, C> = pli.stripe(A::syms(ranks));
+    // look-ahead rows are often added in several steps (one striped sequence scored with motifs of growing width)
+    if wrap >= 3 && (ranks.len() + wrap) % 2 == 0 {
+        s.configure_wrap(1 + ranks.len() % (wrap - 1));
+        if ranks.len() % 3 == 0 { s.configure_wrap(wrap - 1); }
+    }
     s.configure_wrap(wrap);
     s
 }
